@@ -173,6 +173,7 @@ def replay_text(caps, hist, what):
 def explore_config(chk, caps, nw, depth, with_rselect=True, with_select2=True, max_states=None, stop_at=None):
     label = "caps=%s workers=%d" % (list(caps), nw)
     init = Model(caps, nw)
+    init.ring_key = (len(caps) == 1)      # single-channel configurations also distinguish ring-buffer positions
     depth_map = {}
 
     def depth_of(model):
